@@ -129,6 +129,26 @@ def _relation(fi: FuncInfo, node: ast.AST, lhs: ast.AST, rhs: ast.AST
                     (l in names_r and r in names_l):
                 eq = isinstance(e.ops[0], ast.Eq)
                 return "==" if eq == f.pol else "!="
+    # not <same kinds>: a flag defined as the disjunction, over the kinds,
+    # of (left is K and right is K).  Values of different kinds differ.
+    from sa.coords import reaching_def
+    for f in facts_at(node):
+        if f.kind == "cond" and not f.pol and isinstance(f.expr, ast.Name):
+            d = reaching_def(f.expr.id, node)
+            if isinstance(d, ast.BoolOp) and isinstance(d.op, ast.Or) and \
+                    len(d.values) >= 3 and all(
+                        isinstance(v, ast.BoolOp) and
+                        isinstance(v.op, ast.And) and len(v.values) == 2 and
+                        all(isinstance(x, ast.Name) for x in v.values)
+                        for v in d.values):
+                kinds_ok = True
+                for v in d.values:
+                    a, b = v.values[0].id, v.values[1].id  # type: ignore
+                    if not (a.startswith(src(lhs)) and b.startswith(src(rhs))
+                            and a[len(src(lhs)):] == b[len(src(rhs)):]):
+                        kinds_ok = False
+                if kinds_ok:
+                    return "!="
     return None
 
 
@@ -329,11 +349,15 @@ def d2_dispatch(chk: Check) -> None:
             calls = [c for s in res for c in ast.walk(s)
                      if isinstance(c, ast.Call) and
                      src(c.func).startswith("self._") and
-                     not src(c.func).startswith("self.logger")]
+                     not src(c.func).startswith("self.logger") and
+                     not src(c.func).startswith("self._diffs.")]
             got = [(src(c.func)[5:], [src(a) for a in c.args[:3]])
                    for c in calls]
             text = "lhs {} / rhs {}".format(lk, rk)
-            undecided = [s for s in res if isinstance(s, ast.If)]
+            # "did the helpers record anything?" is a run-time question
+            # (C06-D2b judges the arm's answer to it)
+            undecided = [s for s in res if isinstance(s, ast.If) and
+                         not _is_recorded_test(s.test)]
             if lk == rk:
                 want = [(COMPARER[lk], [path, lhs, rhs])]
             else:
@@ -346,6 +370,114 @@ def d2_dispatch(chk: Check) -> None:
                 chk.fail("C06-D2", fi, None, text,
                          "residual calls {} but the kinds require {}"
                          .format(got, want), {"residual": show(res)[-500:]})
+
+
+def _is_recorded_test(test: ast.AST) -> bool:
+    """`len(self._diffs) == <snapshot>` (either order, == or !=, >)."""
+    if not (isinstance(test, ast.Compare) and len(test.ops) == 1):
+        return False
+    sides = [src(test.left), src(test.comparators[0])]
+    return "len(self._diffs)" in sides and all(
+        x == "len(self._diffs)" or x.isidentifier() for x in sides)
+
+
+def _may_record_nothing(fi: FuncInfo) -> bool:
+    """Some path through the helper appends no entry (and delegates to no
+    comparer)."""
+    from sa.flow import Flow
+
+    def transfer(stmt: ast.stmt, st, flow):
+        for c in ast.walk(stmt):
+            if isinstance(c, ast.Call) and (
+                    src(c.func).endswith("_diffs.append") or
+                    src(c.func).startswith("self._diff_")):
+                return [True]
+        return [st]
+
+    def branch(test: ast.AST, st, flow):
+        return [st], [st]
+    out = Flow(transfer, branch).run(fi.node.body, [False])
+    ends = set(out.fall) | {s_ for s_, _ in out.returns}
+    return False in ends
+
+
+def d2b_kind_clash_is_reported(chk: Check) -> None:
+    """Two nodes of different kinds differ as data, so the diff must hold a
+    non-SAME entry for them.  The kind-clash arm deletes the left node's
+    content and adds the right node's, element by element: for an empty
+    container or a null there is nothing to delete or add, and `a: {}`
+    against `a: []` would leave no trace in the report."""
+    from sa.coords import reaching_def
+    from sa.flow import Flow
+    prog = chk.prog
+    chk.rule("C06-D2b", "the kind-clash arm of _diff_between records at "
+             "least one entry on every path (helpers that may record "
+             "nothing are followed by a test of the entry count)", floor=1)
+    fi = prog.func("Differ._diff_between")
+    arm = None
+    for n in walk_local(fi.node):
+        if isinstance(n, ast.If) and isinstance(n.test, ast.Name) and \
+                n.orelse and any(
+                    isinstance(c, ast.Call) and
+                    src(c.func).endswith("_purge_document")
+                    for st in n.orelse for c in ast.walk(st)):
+            arm = n.orelse
+    if arm is None:
+        raise AnalysisError("kind-clash arm of _diff_between not found")
+    summaries: Dict[str, bool] = {}
+
+    def nothing(call: ast.Call) -> Optional[bool]:
+        name = src(call.func)
+        if not name.startswith("self._"):
+            return None
+        try:
+            callee = prog.func("Differ." + name[5:])
+        except Exception:  # pylint: disable=broad-except
+            return None
+        if name not in summaries:
+            summaries[name] = _may_record_nothing(callee)
+        return summaries[name]
+
+    def transfer(stmt: ast.stmt, st, flow):
+        outs = {st}
+        for c in ast.walk(stmt):
+            if not isinstance(c, ast.Call):
+                continue
+            if src(c.func).endswith("_diffs.append"):
+                return [True]
+            if src(c.func).startswith("self._diffs."):
+                continue
+            m = nothing(c)
+            if m is False:
+                return [True]
+            if m is True:
+                outs.add(True)
+        return sorted(outs)
+
+    def branch(test: ast.AST, st, flow):
+        if _is_recorded_test(test):
+            names = [x for x in (src(test.left), src(test.comparators[0]))
+                     if x != "len(self._diffs)"]
+            d = reaching_def(names[0], test) if names else None
+            if d is not None and src(d) == "len(self._diffs)":
+                if isinstance(test.ops[0], ast.Eq):
+                    return ([st] if not st else []), ([st] if st else [])
+                return ([st] if st else []), ([st] if not st else [])
+        return [st], [st]
+    out = Flow(transfer, branch).run(arm, [False])
+    ends = set(out.fall) | {s_ for s_, _ in out.returns}
+    text = "kind-clash arm: {}".format(", ".join(
+        "{}{}".format(k[5:], " (may record nothing)" if v else "")
+        for k, v in sorted(summaries.items())))
+    if False in ends:
+        chk.fail("C06-D2b", fi, arm[0], text,
+                 "every helper of the arm may record nothing (empty "
+                 "container, null) and nothing else is recorded: two nodes "
+                 "of different kinds can leave no entry, the diff is empty "
+                 "although the documents differ")
+    else:
+        chk.ok("C06-D2b", fi, arm[0], text,
+               "an entry is recorded on every path")
 
 
 # ---------------------------------------------------------------- D3 ------
@@ -764,6 +896,186 @@ def d4d_search_results_fresh(chk: Check) -> None:
                    "search", False)
 
 
+
+# ---------------------------------------------------------------- D1c -----
+_POSITIVE_LOOKUP = """
+def f(lhs, rhs):
+    for ele in lhs:
+        yield rhs.index(ele)
+"""
+
+
+def _value_lookups(fn: ast.AST) -> List[ast.Call]:
+    """`X.index(v)` / `X.find(v)` calls whose argument is not a constant:
+    a position derived from a value (first occurrence wins)."""
+    out = []
+    for n in walk_local(fn):
+        if isinstance(n, ast.Call) and isinstance(n.func, ast.Attribute) and \
+                n.func.attr in ("index", "find", "rindex", "rfind") and \
+                n.args and not isinstance(n.args[0], ast.Constant):
+            out.append(n)
+    return out
+
+
+def d1c_positions_carried(chk: Check) -> None:
+    """The index reported for an element is the one it was enumerated at.
+    Recovering a position from the element's *value* (`seq.index(ele)`)
+    names the first equal element: with duplicate values two different
+    elements are reported under one path."""
+    prog = chk.prog
+    chk.rule("C06-D1c", "no comparer derives a position from an element's "
+             "value (`.index(value)`): equal elements would share one "
+             "reported index", floor=9)
+    sample = ast.parse(_POSITIVE_LOOKUP).body[0]
+    if len(_value_lookups(sample)) != 1:
+        raise AnalysisError("value-lookup detector lost its positive sample")
+    for fi in prog.funcs_in(DIFFER):
+        bad = _value_lookups(fi.node)
+        for c in bad:
+            chk.fail("C06-D1c", fi, c, "{}: position looked up by value"
+                     .format(fi.short),
+                     "`{}` names the first element equal to the argument, "
+                     "not the element being reported".format(src(c)[:50]))
+        if not bad:
+            chk.ok("C06-D1c", fi, fi.node, fi.short,
+                   "positions come from enumeration only", False)
+
+# ---------------------------------------------------------------- D7 ------
+_POSITIVE_NE = """
+def f(self, lhs: CommentedSeq, rhs: CommentedSeq):
+    for lele, rele in zip(lhs, rhs):
+        if lele != rele:
+            pass
+"""
+
+
+def _ne_on_document_values(fn: ast.AST, doc_params: Set[str]
+                           ) -> Tuple[List[ast.Compare], int]:
+    """`a != b` where an operand is a document value: a document parameter
+    or a name bound by a loop (also through tuple targets, zip / zip_longest
+    / enumerate) over one, or over a list of synchronised pairs."""
+    doc: Set[str] = set(doc_params)
+    grew = True
+    while grew:
+        grew = False
+        for n in walk_local(fn):
+            if isinstance(n, ast.For):
+                roots = {x.id for x in ast.walk(n.iter)
+                         if isinstance(x, ast.Name)}
+                if roots & doc or "syn_pairs" in src(n.iter) or \
+                        "synchronize" in src(n.iter):
+                    new = {x.id for x in ast.walk(n.target)
+                           if isinstance(x, ast.Name)} - doc
+                    if new:
+                        doc |= new
+                        grew = True
+            if isinstance(n, ast.Assign) and isinstance(n.value, ast.Call) \
+                    and "synchronize" in src(n.value.func):
+                new = {src(t) for t in n.targets} - doc
+                if new:
+                    doc |= new
+                    grew = True
+    bad, seen = [], 0
+    for n in walk_local(fn):
+        if isinstance(n, ast.Compare) and len(n.ops) == 1 and \
+                isinstance(n.ops[0], (ast.Eq, ast.NotEq)):
+            ops = [n.left, n.comparators[0]]
+            if any(isinstance(o, ast.Name) and o.id in doc for o in ops) \
+                    and not any(isinstance(o, ast.Constant) for o in ops):
+                seen += 1
+                if isinstance(n.ops[0], ast.NotEq):
+                    bad.append(n)
+    return bad, seen
+
+
+def d7_equality_only(chk: Check) -> None:
+    """ruamel.yaml's CommentedMap defines `==` without regard for key order
+    (it compares as a plain dict) but defines no `!=`: that falls through
+    to OrderedDict's, which *is* order-sensitive.  Two hashes can therefore
+    be `==` and `!=` at once.  SAME is decided by `==` everywhere, so CHANGE
+    must be decided by `not ==` -- never by `!=` -- or a record whose keys
+    were merely reordered is reported as changed."""
+    prog = chk.prog
+    chk.rule("C06-D7", "no comparer applies `!=` to document values "
+             "(CHANGE is the negation of the `==` that decides SAME)",
+             floor=4)
+    from sa.model import set_parents
+    sample = ast.parse(_POSITIVE_NE).body[0]
+    set_parents(sample)
+    if len(_ne_on_document_values(sample, {"lhs", "rhs"})[0]) != 1:
+        raise AnalysisError("`!=` detector lost its positive sample")
+    total = 0
+    for fi in prog.funcs_in(DIFFER):
+        bad, seen = _ne_on_document_values(fi.node, _doc_params(fi))
+        total += seen
+        for c in bad:
+            chk.fail("C06-D7", fi, c, "{}: `!=` on document values".format(
+                fi.short),
+                "`{}`: for two hashes `!=` is OrderedDict's order-sensitive "
+                "one while `==` ignores key order; equal records with "
+                "reordered keys are reported as CHANGE".format(src(c)))
+        for _ in range(seen - len(bad)):
+            chk.ok("C06-D7", fi, fi.node, fi.short + ": == on document "
+                   "values", "equality only", False)
+    if total < 4:
+        raise AnalysisError("equality tests on document values not found")
+
+
+# ---------------------------------------------------------------- D1d -----
+def d1d_every_pair_reported(chk: Check) -> None:
+    """Every element of either side is accounted for: each iteration of a
+    pairing loop appends an entry or hands the pair to a comparer on every
+    path.  (An equal pair that produces nothing is missing from `--same` /
+    `--onlysame` output and from the coverage clause of the property.)"""
+    from sa.flow import Flow
+    prog = chk.prog
+    chk.rule("C06-D1d", "every iteration of a pairing loop reports the pair "
+             "(appends an entry or delegates to a comparer) on every path",
+             floor=3)
+    n = 0
+    for fi in prog.funcs_in(DIFFER):
+        if fi.node.name.startswith("synchronize"):
+            continue
+        for loop in walk_local(fi.node):
+            if not isinstance(loop, ast.For):
+                continue
+            it = src(loop.iter)
+            paired = "zip_longest" in it or (
+                isinstance(loop.target, ast.Tuple) and
+                len(loop.target.elts) == 4)
+            keys = isinstance(loop.iter, ast.Name) or "items()" in it
+            if not paired:
+                continue
+            del keys
+
+            def transfer(stmt: ast.stmt, st, flow):
+                for c in ast.walk(stmt):
+                    if isinstance(c, ast.Call) and (
+                            src(c.func).endswith("_diffs.append") or
+                            src(c.func).startswith("self._diff_")):
+                        return [True]
+                return [st]
+
+            def branch(test: ast.AST, st, flow):
+                return [st], [st]
+            out = Flow(transfer, branch).run(loop.body, [False])
+            ends = set(out.fall) | set(out.continues)
+            n += 1
+            text = "{}: for {} in {}".format(fi.short, src(loop.target)[:30],
+                                             it[:30])
+            if False in ends:
+                chk.fail("C06-D1d", fi, loop, text,
+                         "some path through the handling of a pair appends "
+                         "no entry and calls no comparer: the pair is "
+                         "missing from the report")
+            else:
+                chk.ok("C06-D1d", fi, loop, text,
+                       "every path appends or delegates")
+    if n < 3:
+        raise AnalysisError("pairing loops of the differ not found ({})"
+                            .format(n))
+
+
 # ---------------------------------------------------------------- D5 ------
 def d5_both_sides(chk: Check) -> None:
     prog = chk.prog
@@ -837,10 +1149,21 @@ def d6_exit_and_ladders(chk: Check) -> None:
 def run(chk: Check) -> None:
     d1_entries(chk)
     d2_dispatch(chk)
+    d2b_kind_clash_is_reported(chk)
     d3_modes(chk)
     d4_absent(chk)
     d4b_falsy(chk)
     d4c_fresh_report(chk)
     d4d_search_results_fresh(chk)
+    d1c_positions_carried(chk)
+    d1d_every_pair_reported(chk)
+    d7_equality_only(chk)
+    from rules.shared import shared_state_rule
+    shared_state_rule(chk, "C06-D8", ("yamlpath/differ/differ.py",
+                                  "yamlpath/differ/differconfig.py",
+                                  "yamlpath/differ/diffentry.py"), 20)
+    from rules.shared import readonly_lookups_rule
+    readonly_lookups_rule(chk, "C06-D9",
+                          ("yamlpath/differ/differconfig.py",), 1)
     d5_both_sides(chk)
     d6_exit_and_ladders(chk)
